@@ -112,6 +112,7 @@ func (r *Reconciler) Reconcile(ctx context.Context, request reconcile.Request) (
 	}
 	listOpts := []client.ListOption{
 		&client.MatchingLabelsSelector{Selector: selector.AsSelectorPreValidated()},
+		client.InNamespace(request.Namespace),
 	}
 	err = r.client.List(context.TODO(), replicaSetList, listOpts...)
 	if err != nil {
@@ -323,6 +324,7 @@ func (r *Reconciler) selectNodes(logger logr.Logger, daemonset *datadoghqv1alpha
 		client.MatchingLabelsSelector{
 			Selector: podSelector.AsSelectorPreValidated(),
 		},
+		client.InNamespace(daemonset.Namespace),
 	}
 	if err := r.client.List(context.TODO(), podList, podListOptions...); err != nil {
 		return err
